@@ -140,7 +140,7 @@ func checkC17(r *harness.Run) harness.Coverage {
 	for _, p := range univ.PumpPairs {
 		for _, v := range []string{"", "a", "`1`", "#", "\xff"} {
 			unit := len(p[0]) + len(p[1])
-			for _, k := range []int{1, 2, 3, 100, 65536 / unit} {
+			for _, k := range []int{1, 2, 3, 100, 255, 256, 257, 511, 512, 513, 1023, 1024, 1025, 4096, 65536 / unit} {
 				jobs = append(jobs, pj{p[0], v, p[1], k})
 			}
 		}
@@ -149,6 +149,17 @@ func checkC17(r *harness.Run) harness.Coverage {
 		j := jobs[i]
 		c17One(r, strings.Repeat(j.u, j.k)+j.v+strings.Repeat(j.w, j.k), &c)
 	})
+	// tokens that carry bytes the lexer passes through (invalid UTF-8, multi-byte runes, controls) combined
+	// with errors that only the parser detects: the SyntaxError must still carry the ORIGINAL text
+	carriers := []string{"'\xff\xfe'", "`\"\xff\"`", "\"\xff\"", "'é😀'", "\"日本\"", "'\x01'", "`\"\\u00e9\"`", "'a\\'b'", "a"}
+	suffixes := []string{" ]", ".", " a", "(", " ==", "[", "[?", " | ", ", b", " }", ")", " 'x'", "[0", ".*.", " &&"}
+	for _, ca := range carriers {
+		for _, su := range suffixes {
+			for _, pre := range []string{"", "foo[?bar==", "[", "a.", "!"} {
+				c17One(r, pre+ca+su, &c)
+			}
+		}
+	}
 	r.Evaluations = c.cases
 	r.Traces = c.cases
 	r.States = c.cases
